@@ -124,6 +124,10 @@ def _run(chk, tier, model_ok):
         if rr.kind == "ok" and len(out) == 2 and \
                 cppdrv.monotone_violations(cppdrv.parse_obs(out[0]), cppdrv.parse_obs(out[1])):
             chk.report_known(k)
+        elif rr.kind == "ok" and len(out) == 1 and json.loads(k["input"]).get("expect_ok_field"):
+            t = cppdrv.parse_obs(out[0])
+            if any(n == json.loads(k["input"])["expect_ok_field"] and o.get("ok") for n, _h, o in t["fields"]):
+                chk.report_known(k)
         elif rr.kind != "ok" and viewcorr.crash_key(rr, cmds[len(out)] if len(out) < len(cmds) else cmds[-1], c) == k["key"]:
             chk.report_known(k)
     for case in cases:
